@@ -619,7 +619,8 @@ class ContentSecurityPolicyDirectiveBase(ParsableBase, Serializable):
 
     @classmethod
     def _parse_type(cls, parsable):
-        parser = ParserText(parsable)
+        # HTAB is ASCII white space like SP between the members of a directive (CSP3 section 2.2.1)
+        parser = ParserText(bytes(parsable).replace(b'\t', b' '))
 
         parser.parse_parsable('type', ContentSecurityPolicyDirectiveType)
         if parser['type'] != cls.get_type():
